@@ -30,6 +30,7 @@ type Features struct {
 	NoRecursiveDecorators                                bool // a decorator is not used inside its own decorated block
 	OnePatternPerCond                                    bool // at most one pattern (line pattern or match operator) per condition
 	NoMixedMetricReads                                   bool // no metric reads inside mixed Int/Float arithmetic or comparisons
+	ShortExpiry                                          bool // del ... after uses 1ms as well (so that a GC pass a few ms later removes the datum)
 	MaxStmts, MaxDepth, MaxExprDepth                     int
 }
 
@@ -785,7 +786,11 @@ func (g *G) genBlock(depth, n int, ctx blockCtx) []*Stmt {
 			g.used[m.Name] = true
 			st := &Stmt{Op: "del", Metric: m.Name, Keys: g.genKeys(m, 1)}
 			if g.F.DelAfter && g.chance("after", 40) {
-				st.After = pick(g, "dur", []string{"1h", "24h", "90m", "1h30m"})
+				if g.F.ShortExpiry {
+					st.After = pick(g, "sdur", []string{"1ms", "1ms", "1h"})
+				} else {
+					st.After = pick(g, "dur", []string{"1h", "24h", "90m", "1h30m"})
+				}
 				g.class("del-after")
 			}
 			g.class("del")
